@@ -90,6 +90,8 @@ func (u *c05Univ) selRegion(t int, name string) (g, y c05Sel, region string) {
 	return g, y, region
 }
 
+func (un *c05Unit) key() string { return fmt.Sprintf("u%d", un.idx) }
+
 func c05Names(u *c05Univ) []string {
 	set := map[string]bool{}
 	for _, n := range c05FieldNames {
@@ -119,7 +121,7 @@ func runC05(args []string) error {
 	}
 	sm := newSummary("C05")
 	r := newRng(*seed)
-	nMain, nRegion, nCyc, nHost := 100, 40, 4, 60
+	nMain, nRegion, nCyc, nHost := 80, 32, 4, 40
 	if *tier == "thorough" {
 		nMain, nRegion, nCyc, nHost = 5000, 1500, 60, 3000
 	}
@@ -200,6 +202,7 @@ type c05Extra struct {
 }
 
 type c05State struct {
+	fullCount map[string]int
 	extras   []*c05Extra
 	mu       sync.Mutex
 	sm       *summary
@@ -270,7 +273,7 @@ func (st *c05State) prepare(un *c05Unit, r *rng) {
 				implSel := c05ImplSelect(u, t, name, res)
 				id := newID()
 				c := &c05Case{ID: id, Kind: "fl", Region: region,
-					Input: map[string]any{"level": "function", "type": tname(t), "ptr": ptr, "name": name, "decls": u.decls()},
+					Input: map[string]any{"level": "function", "type": tname(t), "ptr": ptr, "name": name, "universe": un.key()},
 					Coq: fmt.Sprintf("(%s, %d, %s, %s, %s, %s, %s)", coqN(id), t, coqStr(name),
 						coqOptPath(res.FieldPath, len(res.FieldPath) > 0), coqOptPath(res.MethPath, res.MethFound), depth, ref.coq())}
 				c.Input["impl"] = implSel.String()
@@ -293,7 +296,7 @@ func (st *c05State) prepare(un *c05Unit, r *rng) {
 			}
 			id := newID()
 			c := &c05Case{ID: id, Kind: "ms", Region: region,
-				Input: map[string]any{"level": "function", "what": "method set", "type": tname(t), "ptr": ptr, "decls": u.decls(), "impl": ynames, "ref": gnames,
+				Input: map[string]any{"level": "function", "what": "method set", "type": tname(t), "ptr": ptr, "universe": un.key(), "impl": ynames, "ref": gnames,
 					"mismatch": region != ""},
 				Coq: fmt.Sprintf("(%s, %d, %s, %s, %s)", coqN(id), t, coqBool(ptr), coqStrList(ynames), coqStrList(gnames))}
 			un.cases = append(un.cases, c)
@@ -312,7 +315,7 @@ func (st *c05State) prepare(un *c05Unit, r *rng) {
 				}
 				id := newID()
 				c := &c05Case{ID: id, Kind: "impl", Region: region,
-					Input: map[string]any{"level": "function", "what": "implements", "type": tname(t), "ptr": ptr, "iface": iname(j), "decls": u.decls(), "impl": impl, "ref": ref,
+					Input: map[string]any{"level": "function", "what": "implements", "type": tname(t), "ptr": ptr, "iface": iname(j), "universe": un.key(), "impl": impl, "ref": ref,
 						"mismatch": impl != ref},
 					Coq: fmt.Sprintf("(%s, %d, %s, %d, %s, %s)", coqN(id), t, coqBool(ptr), j, coqBool(impl), coqBool(ref))}
 				un.cases = append(un.cases, c)
